@@ -21,6 +21,8 @@ import time
 
 ROOT = os.path.dirname(os.path.dirname(os.path.abspath(__file__)))
 PY = os.path.join(ROOT, ".venv", "bin", "python")
+if not os.path.exists(PY):  # a snapshot of /verif (vp run): the venv lives in /verif
+    PY = "/verif/.venv/bin/python"
 NCPU = int(os.environ.get("VERIF_JOBS", "0") or 0) or (os.cpu_count() or 4)
 EXIT_OK, EXIT_VIOLATION, EXIT_HARNESS = 0, 1, 3
 
